@@ -121,6 +121,12 @@ def make_library(spec, n=24):
     return lib, P
 
 
+# Re-expressing a period in years or an angle in degrees perturbs it by one unit in the last place; twobody's Kepler solver stops at
+# its own tolerance (1e-10 in the eccentric anomaly), so the K column -- and with precise data the ln-likelihood -- can move by a few
+# 1e-7 between twins (seen in the thorough tier: 6e-7 at |ll| = 30).  A unit mistake moves it by n ln(1000) or by whole nats.
+TWIN_TOL = 2e-6
+
+
 def sample_twin(spec):
     """rejection_sample on the library with a fixed seed; returns accepted library rows, all lls, recorded mvn arguments."""
     import astropy.units as u
@@ -167,7 +173,7 @@ def compare_twins(spec, base, tw, kind, c):
     errs = []
     n = base["n"]
     shift = (tw["lls"] - base["lls"]) + n * math.log(c)
-    if not np.all(np.abs(shift) < 1e-8 * (1 + np.abs(base["lls"]))):
+    if not np.all(np.abs(shift) < TWIN_TOL * (1 + np.abs(base["lls"]))):
         i = int(np.argmax(np.abs(shift)))
         errs.append(f"{kind}: marginal ln-likelihood of library row {i} is {tw['lls'][i]!r} against {base['lls'][i]!r}: differs from the Jacobian constant "
                     f"-n ln c = {-n * math.log(c)!r} by {shift[i]:.3g} (n={n}, c={c})")
@@ -205,7 +211,7 @@ def compare_twins(spec, base, tw, kind, c):
                 errs.append(f"{kind}, {label}: returned {nm} differs physically from the base problem's: {b[nm][:3]} vs {ph[nm][:3]}")
                 break
     sh = (tw["lls_disk"] - base["lls"]) + n * math.log(c)
-    if not np.all(np.abs(sh) < 1e-8 * (1 + np.abs(base["lls"]))):
+    if not np.all(np.abs(sh) < TWIN_TOL * (1 + np.abs(base["lls"]))):
         i = int(np.argmax(np.abs(sh)))
         errs.append(f"{kind}, on-disk path: marginal ln-likelihood of library row {i} is {tw['lls_disk'][i]!r} against {base['lls'][i]!r} in memory (Jacobian constant {-n * math.log(c)!r})")
     return errs
@@ -213,7 +219,7 @@ def compare_twins(spec, base, tw, kind, c):
 
 JAC_HEADER = HEADER + """Definition jac_ok (t : nat * Q * Q * Q) : bool :=
   let '(n, c, ll0, ll1) := t in
-  rclose 70 ((1 # 100000000) * (if Qle_bool 1 (Corr.Qabs' ll0) then Corr.Qabs' ll0 else 1))
+  rclose 70 ((1 # 500000) * (if Qle_bool 1 (Corr.Qabs' ll0) then Corr.Qabs' ll0 else 1))
          (RAdd (RSub (RQ ll1) (RQ ll0)) (RMul (RC (Z.of_nat n) 1) (RLn (RQ c)))) (0 # 1).
 """
 
@@ -246,7 +252,7 @@ def run_cases(ctx, specs):
                 ctx.fail("predicate", SIG, f"{kind}: non-finite marginal ln-likelihood {out0['ll']} / {out1['ll']}", case=dict(spec, twin=kind))
                 continue
             d = out1["ll"] - out0["ll"] + n * math.log(c)
-            if abs(d) > 1e-8 * (1 + abs(out0["ll"])):
+            if abs(d) > TWIN_TOL * (1 + abs(out0["ll"])):
                 ctx.fail("predicate", SIG, f"{kind}: marginal ln-likelihood {out1['ll']!r} vs {out0['ll']!r}: not the Jacobian constant -n ln c (off by {d:.3g}; n={n}, c={c}) "
                          f"[P prior in {v['P_unit']}, P0 {v['P0']}, K prior {v['kprior']}]", case=dict(spec, twin=kind))
             for e in compare_twins(spec, base, tw, kind, c)[:1]:
@@ -299,7 +305,7 @@ def run(ctx):
                 for kind, v, c in variants(spec):
                     out1 = K.run_impl(v)
                     d = out1["ll"] - out0["ll"] + len(out0["rv"]) * math.log(c)
-                    if not abs(d) <= 1e-8 * (1 + abs(out0["ll"])):
+                    if not abs(d) <= TWIN_TOL * (1 + abs(out0["ll"])):
                         ctx.fail("predicate", SIG, f"{kind}: marginal ln-likelihood {out1['ll']!r} vs {out0['ll']!r}: not the Jacobian constant (off by {d:.3g})", case=dict(spec, twin=kind))
             except Exception as e:
                 ctx.fail("predicate", SIG, f"raised {type(e).__name__}: {e}", case=spec)
@@ -311,7 +317,7 @@ def run(ctx):
         "run through rejection_sample with a fixed seed; non-trivial = a base problem all of whose twins ran",
         assumptions=["astropy's unit conversion factors; a twin's numbers are the base numbers times a float factor (equal physics to 1e-16)",
                      "accepted-set equality is not demanded when an acceptance decision is closer than 1e-7 to its threshold (counted in coverage)",
-                     "IEEE rounding: Jacobian relation to 1e-8 (1+|ll|), posterior mean/cov to 1e-5 posterior sigma"],
+                     "IEEE rounding and the Kepler solver's own convergence tolerance (a 1e-16 change of P or M0 can change the iteration count): Jacobian relation to 2e-6 (1+|ll|), posterior mean/cov to 1e-5 posterior sigma"],
         trusted_extra=["Coq-Interval through Base/RealEnc.v (ln c)", "translator tools/pyx2v.py (fail-closed)"],
     )
 
